@@ -54,11 +54,15 @@ structure CookieCfg where
   deriving DecidableEq, Repr
 
 /-- The biscotti `Processor` as far as the session middleware is concerned: one crypto rule
-    (algorithm + the cookie name it is registered for) and the percent-encoding switch. -/
+    (`CryptoRule`: primary algorithm + key, the cookie name it is registered for, the fallback
+    (algorithm, key) pairs that are only used to read incoming cookies) and the percent-encoding
+    switch. Keys are natural numbers: two keys are the same key iff the numbers are equal. -/
 structure Crypto where
   alg : Alg
   ruleName : String
   percentEncode : Bool
+  key : Nat := 0
+  fallbacks : List (Alg × Nat) := []
   deriving DecidableEq, Repr
 
 /-- `SessionStateConfig` + cookie + processor. `threshold = some (n, d)` is the ratio `n/d`. -/
@@ -544,11 +548,88 @@ def pctEncode (s : String) : String :=
     if needsPct b then String.ofList ['%', hexDigit (b.toNat / 16), hexDigit (b.toNat % 16)]
     else String.ofList [Char.ofNat b.toNat])
 
+/-- The cookie name as it travels (`Processor::process_outgoing`, first step). -/
+def wireName (cfg : Config) : String :=
+  if cfg.crypto.percentEncode then pctEncode cfg.cookie.name else cfg.cookie.name
+
 /-- `Processor::process_outgoing`: the name is percent-encoded *first*, the rule is looked up under
-    the encoded name. -/
+    the encoded name; only the rule's *primary* (algorithm, key) is used on the way out. -/
 def outgoingAlg (cfg : Config) : Alg :=
-  let wireName := if cfg.crypto.percentEncode then pctEncode cfg.cookie.name else cfg.cookie.name
-  if cfg.crypto.alg ≠ .none ∧ cfg.crypto.ruleName = wireName then cfg.crypto.alg else .none
+  if cfg.crypto.alg ≠ .none ∧ cfg.crypto.ruleName = wireName cfg then cfg.crypto.alg else .none
+
+/-! ## Cookies on the wire, and what a (possibly different) processor reads back
+
+The processor of a deployment changes over time (key / algorithm rotation with fallbacks), the
+cookies that are out there do not. A `Token` is a cookie as the client holds it: the name it
+travels under, how its value is protected and with which key, and the payload (`wire.rs`:
+session id + client-side state). The AEAD / HMAC themselves are not modelled: a value protected
+with (algorithm, key) is readable by exactly the (algorithm, key) configurations. -/
+
+structure Token (κ ν : Type) where
+  wireName : String
+  prot : Alg
+  key : Nat
+  /-- a plain value is percent-encoded iff the issuing processor had `percent_encode` on -/
+  pctValue : Bool
+  id : Nat
+  client : Map κ ν
+  deriving Repr
+
+/-- What `inject_response_cookies` sends for the value cookie built by `finalize`. -/
+def issue {κ ν : Type} (cfg : Config) (id : Nat) (client : Map κ ν) : Token κ ν :=
+  { wireName := wireName cfg, prot := outgoingAlg cfg, key := cfg.crypto.key,
+    pctValue := cfg.crypto.percentEncode, id, client }
+
+def hexVal (b : UInt8) : Option Nat :=
+  let n := b.toNat
+  if 48 ≤ n ∧ n ≤ 57 then some (n - 48)
+  else if 65 ≤ n ∧ n ≤ 70 then some (n - 55)
+  else if 97 ≤ n ∧ n ≤ 102 then some (n - 87)
+  else none
+
+/-- `percent_encoding::percent_decode`: `%XY` with two hex digits is one byte, any other `%` is literal. -/
+def pctDecodeBytes : List UInt8 → List UInt8
+  | [] => []
+  | b :: tail =>
+    if b = 37 then
+      match tail with
+      | h :: l :: rest =>
+        match hexVal h, hexVal l with
+        | some x, some y => UInt8.ofNat (x * 16 + y) :: pctDecodeBytes rest
+        | _, _ => b :: pctDecodeBytes (h :: l :: rest)
+      | t => b :: pctDecodeBytes t
+    else b :: pctDecodeBytes tail
+termination_by structural l => l
+
+/-- `percent_decode(..).decode_utf8()`: `none` = `DecodingError`. -/
+def pctDecode (s : String) : Option String :=
+  String.fromUTF8? (ByteArray.mk (pctDecodeBytes s.toUTF8.toList).toArray)
+
+/-- `Processor::process_incoming`, name part: percent-decoded iff `percent_encode` is on. -/
+def readName (cr : Crypto) (wire : String) : Option String :=
+  if cr.percentEncode then pctDecode wire else some wire
+
+/-- `self.rules.get(name)`: the (algorithm, key) configurations tried on an incoming cookie of that
+    (wire) name: the primary first, then the fallbacks. -/
+def ruleFor (cr : Crypto) (name : String) : Option (List (Alg × Nat)) :=
+  if cr.alg ≠ .none ∧ cr.ruleName = name then some ((cr.alg, cr.key) :: cr.fallbacks) else none
+
+/-- `Processor::process_incoming`, value part. Under a rule the value must verify / decrypt with
+    one of the rule's configurations (a plain value never does: it is not base64). Without a rule
+    the value is taken as it is (percent-decoded iff `percent_encode` is on; decoding a value that
+    was not encoded is assumed to be the identity: the JSON payload contains no `%XY`), and a
+    signed / encrypted value is not a JSON document. -/
+def valueReadable {κ ν : Type} (cr : Crypto) (t : Token κ ν) : Bool :=
+  match ruleFor cr t.wireName with
+  | some cands => t.prot != .none && cands.any (fun c => c.1 == t.prot && c.2 == t.key)
+  | none => t.prot == .none && (!t.pctValue || cr.percentEncode)
+
+/-- `extract_request_cookies` ; `IncomingSession::extract`: the session a processor (not
+    necessarily the one that issued the cookie) reads out of the cookie the client sends. A cookie
+    that fails is skipped: the request starts without a session. -/
+def accept {κ ν : Type} (cfg : Config) (t : Token κ ν) : Option (Nat × Map κ ν) :=
+  if valueReadable cfg.crypto t && readName cfg.crypto t.wireName == some cfg.cookie.name
+  then some (t.id, t.client) else none
 
 /-! ## Debug (`impl Debug for Session`) -/
 
@@ -619,33 +700,53 @@ def runRequest (cfg : Config) (rem : Nat) (incoming : Option (Nat × Map κ ν))
     let (f, _, w) := finalizeSession cfg s w
     (rs, f, w)
 
-/-- Where the cookie of a request comes from. -/
-inductive Src | jar | none | issued (j : Nat) deriving Repr
+/-- Where the session of a request comes from: the cookie in the client's jar, no cookie, a
+    replayed older cookie, or — bypassing cookies — `IncomingSession::from_parts` with the id of
+    the `j`-th issued cookie and an arbitrary client-side state. -/
+inductive Src (κ ν : Type) where
+  | jar | none | issued (j : Nat) | parts (j : Nat) (client : Map κ ν)
+  deriving Repr
 
+/-- One request. `crypto = some p`: the processor in force for this request (rotation between
+    requests of a history); `none`: the one of the history's configuration. -/
 structure Req (κ ν : Type) where
-  src : Src
+  src : Src κ ν
   expire : Bool
   rem : Nat
   ops : List (Op κ ν)
+  crypto : Option Crypto := none
+
+/-- The configuration in force for one request. -/
+def reqCfg (cfg : Config) : Option Crypto → Config
+  | some cr => { cfg with crypto := cr }
+  | none => cfg
 
 /-- A client: the cookie it holds now, and every cookie it was ever handed (for replays). -/
 structure Client (κ ν : Type) where
-  jar : Option (Nat × Map κ ν)
-  issued : List (Option (Nat × Map κ ν))
+  jar : Option (Token κ ν)
+  issued : List (Option (Token κ ν))
 
-def presented (c : Client κ ν) : Src → Option (Nat × Map κ ν)
+/-- The cookie the client sends. -/
+def sent (c : Client κ ν) : Src κ ν → Option (Token κ ν)
   | .jar => c.jar
   | .none => none
   | .issued j => (c.issued[j]?).join
+  | .parts _ _ => none
 
-/-- What the client holds after the response. -/
-def afterResponse (pres : Option (Nat × Map κ ν)) : Fin κ ν → Option (Nat × Map κ ν)
-  | .set id cli => some (id, cli)
+/-- The `IncomingSession` the request starts with, under the processor in force. -/
+def presented (cfg : Config) (c : Client κ ν) (src : Src κ ν) : Option (Nat × Map κ ν) :=
+  match src with
+  | .parts j cli => ((c.issued[j]?).join).map fun t => (t.id, cli)
+  | src => (sent c src).bind (accept cfg)
+
+/-- What the client holds after the response (a cookie the server did not replace stays). -/
+def afterResponse (cfg : Config) (held : Option (Token κ ν)) : Fin κ ν → Option (Token κ ν)
+  | .set id cli => some (issue cfg id cli)
   | .removal => none
-  | _ => pres
+  | _ => held
 
-def issuedBy : Fin κ ν → Option (Nat × Map κ ν)
-  | .set id cli => some (id, cli)
+def issuedBy (cfg : Config) : Fin κ ν → Option (Token κ ν)
+  | .set id cli => some (issue cfg id cli)
   | _ => none
 
 /-- External expiry of the presented session's record (between requests). -/
@@ -655,22 +756,26 @@ def expire (pres : Option (Nat × Map κ ν)) (w : World κ ν) : World κ ν :=
   | none => w
 
 structure ReqOut (κ ν : Type) where
+  /-- the configuration (with the processor) that was in force for this request -/
+  cfg : Config
   incoming : Option Nat
   res : List (Res ν)
   fin : Fin κ ν
   log : List (LogE κ ν)
   store : Map Nat (Rec κ ν)
 
-/-- A whole history: the cookie set by one response is what later requests present. -/
+/-- A whole history: the cookie set by one response is what later requests present — to whatever
+    processor is in force then. -/
 def runHistory (cfg : Config) : List (Req κ ν) → Client κ ν → World κ ν → List (ReqOut κ ν)
   | [], _, _ => []
   | rq :: rest, c, w =>
-    let pres := presented c rq.src
+    let cfg' := reqCfg cfg rq.crypto
+    let pres := presented cfg' c rq.src
     let w := if rq.expire then expire pres w else w
     let w := { w with log := [] }
-    let (rs, f, w) := runRequest cfg rq.rem pres rq.ops w
-    let c' : Client κ ν := { jar := afterResponse pres f, issued := c.issued ++ [issuedBy f] }
-    { incoming := pres.map (·.1), res := rs, fin := f, log := w.log, store := w.store } :: runHistory cfg rest c' w
+    let (rs, f, w) := runRequest cfg' rq.rem pres rq.ops w
+    let c' : Client κ ν := { jar := afterResponse cfg' (sent c rq.src) f, issued := c.issued ++ [issuedBy cfg' f] }
+    { cfg := cfg', incoming := pres.map (·.1), res := rs, fin := f, log := w.log, store := w.store } :: runHistory cfg rest c' w
 
 def World.init : World κ ν := { store := [], nextId := 0, log := [] }
 def Client.init : Client κ ν := { jar := none, issued := [] }
